@@ -551,13 +551,46 @@ func ruleEpcSource(c *Ctx) {
 				continue
 			}
 			for _, nm := range fld.Names {
-				obj := inf.Defs[nm]
+				pobj := inf.Defs[nm]
+				// the parameter and the locals that are (on some path) just another name for it: x := p, x = p
+				alias := map[types.Object]bool{pobj: true}
+				for round := 0; round < 2; round++ {
+					ast.Inspect(fd.Body, func(k ast.Node) bool {
+						if as, ok := k.(*ast.AssignStmt); ok && len(as.Lhs) == len(as.Rhs) {
+							for i, r := range as.Rhs {
+								if rid, ok := ast.Unparen(r).(*ast.Ident); ok && alias[inf.ObjectOf(rid)] {
+									if lid, ok := ast.Unparen(as.Lhs[i]).(*ast.Ident); ok && inf.ObjectOf(lid) != nil {
+										alias[inf.ObjectOf(lid)] = true
+									}
+								}
+							}
+						}
+						return true
+					})
+				}
+				isP := func(o types.Object) bool { return alias[o] }
+				var obj types.Object = pobj
+				_ = obj
 				ast.Inspect(fd.Body, func(k ast.Node) bool {
 					switch x := k.(type) {
+					case *ast.CallExpr:
+						// sorting (or any sort-package / slices-package in-place routine) the parameter or an alias of it
+						if cf := calleeFunc(inf, x); cf != nil && cf.Pkg() != nil && (cf.Pkg().Path() == "sort" || cf.Pkg().Path() == "slices") && len(x.Args) >= 1 {
+							switch cf.Name() {
+							case "Slice", "SliceStable", "Sort", "Stable", "SortFunc", "SortStableFunc", "Reverse":
+								arg := ast.Unparen(x.Args[0])
+								if cv, ok := arg.(*ast.CallExpr); ok && len(cv.Args) == 1 {
+									arg = ast.Unparen(cv.Args[0]) // sort.Sort(ValidatorSet(p))
+								}
+								if id, ok := arg.(*ast.Ident); ok && isP(inf.ObjectOf(id)) {
+									mutators[f] = true
+								}
+							}
+						}
 					case *ast.AssignStmt:
 						for _, l := range x.Lhs {
 							if ix, ok := ast.Unparen(l).(*ast.IndexExpr); ok {
-								if id, ok := ast.Unparen(ix.X).(*ast.Ident); ok && inf.ObjectOf(id) == obj {
+								if id, ok := ast.Unparen(ix.X).(*ast.Ident); ok && isP(inf.ObjectOf(id)) {
 									mutators[f] = true
 								}
 							}
@@ -565,7 +598,7 @@ func ruleEpcSource(c *Ctx) {
 						// out := p[:0]; out = append(out, ...)  (in-place filter)
 						for i, r := range x.Rhs {
 							if se, ok := ast.Unparen(r).(*ast.SliceExpr); ok && i < len(x.Lhs) {
-								if id, ok := ast.Unparen(se.X).(*ast.Ident); ok && inf.ObjectOf(id) == obj {
+								if id, ok := ast.Unparen(se.X).(*ast.Ident); ok && isP(inf.ObjectOf(id)) {
 									if se.High != nil {
 										if tv, ok := inf.Types[se.High]; ok && tv.Value != nil {
 											if hv, ok := constantInt(tv); ok && hv == 0 {
